@@ -18,16 +18,13 @@ ASSUMPTIONS = ["all text (names, symbols, doc, attribute keys and string values)
                "name is a string, namespace a string or null, symbols and fields are lists, size is an int, no duplicate keys",
                "the same-encoding clause of the statement (bytes written under the schema decode under its canonical form) "
                "needs the codec model and is not part of this check (left to the codec properties)"]
-PARTIAL = ["C13_fixed_point: proved on the JSON level (pcf_json (pcf_json j) = pcf_json j) for every schema in the class "
-           "ns_closed (no null-namespace named type nested in a non-null namespace), unconditionally; on the text level "
-           "(C13_fixed_point_partial) under the hypothesis that the parser accepts the canonical JSON (that acceptance "
-           "is not proved); outside ns_closed the statement is false of the specification's canonical form itself "
-           "(C13_fixed_point_refuted) - checked on the implementation for every case",
-           "C13_same_encoding: proved for the schema component (C13_same_encoding_schema) and, given equal erased tables, "
+PARTIAL = ["C13_same_encoding: proved for the schema component (C13_same_encoding_schema) and, given equal erased tables, "
            "for decoding (C13_same_encoding_partial); the equality of the erased tables of the two parses is evaluated on "
            "every generated schema (same_encoding_check), not proved",
-           "C13_spec / C13_cosmetic are stated for the class simple_raw (field names are strings, fixed sizes are "
-           "integers, input not marked as already parsed); every generated schema is checked to be in the class"]
+           "C13_spec / C13_cosmetic / C13_fixed_point are stated for the class simple_raw (field names are strings, fixed "
+           "sizes are integers, input not marked as already parsed) and C13_fixed_point for ns_closed (no null-namespace "
+           "type nested in a non-null namespace; outside it the statement is false: C13_fixed_point_refuted, known "
+           "finding K2); every generated schema is checked to be in simple_raw"]
 
 IMPORTS = ("From Coq Require Import String.\n"
            "From FA Require Import model.Base model.Json model.Parse model.Canon model.Piecewise.\n")
